@@ -527,6 +527,25 @@ def run_fuzz(prop, bins, tierconf, fuzz_s, seed, rundir, violations, infra_error
         args = [fb, corpus]
         if os.path.isdir(seeds):
             args.append(seeds)
+        # raw-mode seeds: the repository's own fuzzing corpus, prefixed with the selector bytes that
+        # make the property's byte decoder take its raw-input branch
+        raw = p.get("fuzz_raw_seeds")
+        if raw:
+            n = 0
+            for src_dir, prefix in raw:
+                d = os.path.join(REPO, src_dir)
+                if not os.path.isdir(d):
+                    continue
+                for f in sorted(os.listdir(d))[:200]:
+                    try:
+                        data = open(os.path.join(d, f), "rb").read()[:380]
+                    except OSError:
+                        continue
+                    with open(os.path.join(corpus, "seed-%d" % n), "wb") as fh:
+                        fh.write(bytes(prefix) + data)
+                    n += 1
+        if p.get("fuzz_dict"):
+            args.append("-dict=" + os.path.join(ROOT, p["fuzz_dict"]))
         known = active_known_arg()
         env = {"VERIF_KNOWN": known[1] if known else ""}
         workers = NCPU
